@@ -1,5 +1,5 @@
 """C15 — client transports deliver each answer to its own request, exactly once
-(spec/ClientStream.tla, spec/ClientDgram.tla, spec/ClientMsg.tla)."""
+(spec/ClientStream.tla, spec/ClientDgram.tla, spec/ClientCompose.tla, spec/ClientMsg.tla)."""
 import json
 import os
 
@@ -21,7 +21,7 @@ DEV = "D_stream_response_timeout_ignored"
 META = {
     "category": "model_checking",
     "text": "TLC explores the stream transport (one action per select! arm of Transport::run, the slot table with ID = slot index, timers, an adversarial peer that may send any message of an alphabet at any time, end the stream or stop reading) and the datagram transport (attempts, random IDs, receive loop, retries) and checks OwnAnswer, AtMostOnce, NoCross, SlotTableSound, NothingLost, the timer/retry budget and completion (liveness under fairness of the task and the clock). Every transition of the explored macro-step state graphs is replayed into the real stream::Connection/Transport and dgram::Connection over in-memory sockets on a paused clock, comparing requests written and the outcome of every get_response() after every step; recorded runs with 50 concurrent requests against a seeded hostile peer are validated by TLC against the specification with the invariants evaluated at every step.",
-    "note": "Trusted: TLC, the transcription in ClientStream.tla/ClientDgram.tla, the harness (in-memory sockets, interposed CLOCK_MONOTONIC so that std::time::Instant follows the paused tokio clock). Errors are compared as a class, not by value. Not covered: multi-response (XFR) requests on the stream transport, multi_stream / redundant / load_balancer / dgram_stream compositions (TC fallback), blocked (pending) writes, more than 65535/2 outstanding requests, real sockets/TLS. demux_reply restarts the response timer for every message, also for unknown IDs: bounded in the model (MaxFrames); see report. Open finding D_stream_response_timeout_ignored: the configured response timeout is never in force for ordinary requests (19 s default is used).",
+    "note": "Trusted: TLC, the transcription in ClientStream.tla/ClientDgram.tla, the harness (in-memory sockets, interposed CLOCK_MONOTONIC so that std::time::Instant follows the paused tokio clock). Errors are compared as a class, not by value. ClientCompose.tla models multi_stream (connect phase, close, back-off, re-issue; completion no later than the response timeout after submission) and dgram_stream (TCP iff TC, the truncated answer is never delivered) over abstract stream connections; its macro-step graph is checked by TLC and replayed into the real multi_stream / dgram_stream over a mock connector. Not covered: multi-response (XFR) requests on the stream transport, redundant / load_balancer, two multi_stream requests whose back-offs end in the same tick (order is random in the code), blocked (pending) writes, more than 65535/2 outstanding requests, real sockets/TLS. demux_reply restarts the response timer for every message, also for unknown IDs: bounded in the model (MaxFrames); see report. Open finding D_stream_response_timeout_ignored: the configured response timeout is never in force for ordinary requests (19 s default is used).",
     "technique": "TLA+ specs (ClientStream.tla, ClientDgram.tla) + TLC exhaustive (safety, liveness); spec->impl behaviour replay on a virtual clock; impl->spec trace validation",
     "design_ref": "DESIGN.md §4 C15",
 }
@@ -101,6 +101,32 @@ def _replay(ctx, thorough):
     if dgen.ncases < 500:
         raise vlib.ToolError("dgram generator produced too few cases: %d" % dgen.ncases)
     ctx.replay_cases("replay_client", dcases, label="dgram")
+    # dgram, every behaviour over one datagram per class (timing of junk
+    # relative to the attempt's deadline matters, the state graph does not
+    # remember it)
+    pcases = os.path.join(ctx.work, "dgram-paths.ndjson")
+    pgen = ctx.tlc("Gen_ClientDgram",
+                   "Gen_ClientDgram_paths_thorough" if thorough else "Gen_ClientDgram_paths",
+                   workers=1, label="gen-dgram-paths", coverage=False, cases_to=pcases, count=False)
+    ctx.require_ok(pgen, "Gen_ClientDgram (paths)")
+    if pgen.ncases < 500:
+        raise vlib.ToolError("dgram path generator produced too few cases: %d" % pgen.ncases)
+    ctx.replay_cases("replay_client", pcases, label="dgram-paths")
+
+
+def _compose(ctx, thorough):
+    """ClientCompose: TLC checks the invariants on the macro-step graph and
+    emits the cases in the same run; the cases run on the real multi_stream /
+    dgram_stream over a mock connector and mock datagram sockets."""
+    for mode, least in (("multi", 1500), ("dgst", 3000)):
+        cases = os.path.join(ctx.work, "compose-%s.ndjson" % mode)
+        cfg = "Gen_ClientCompose_%s%s" % (mode, "_thorough" if thorough else "")
+        gen = ctx.tlc("Gen_ClientCompose", cfg, workers=1, label="mc+gen-" + mode, coverage=False,
+                      cases_to=cases, timeout=3000)
+        ctx.require_ok(gen, cfg)
+        if gen.ncases < least:
+            raise vlib.ToolError("%s generator produced too few cases: %d" % (mode, gen.ncases))
+        ctx.replay_cases("replay_client", cases, label="compose-" + mode)
 
 
 def _validate(ctx, path, label):
@@ -160,10 +186,12 @@ def run(ctx):
     _stream_model(ctx, thorough)
     _dgram_model(ctx, thorough)
     _replay(ctx, thorough)
+    _compose(ctx, thorough)
     _traces(ctx, thorough)
     ctx.assume("the peer's messages come from a finite alphabet (per ID and question: answer, error with question, header-only with/without error code, error with empty question but records, query, answer with edns-tcp-keepalive); a message shorter than a header, EOF between and inside frames, and a peer that stops reading end the stream")
     ctx.assume("time is a tick counter; one tick = 10 s of virtual time in the harness; the code's `elapsed > response_timeout` is decided on whole ticks by configuring RT ticks minus half a tick")
     ctx.assume("std::time::Instant (used by net::client::stream) is driven by interposing clock_gettime(CLOCK_MONOTONIC) in the harness executables, in lock step with tokio's paused clock")
     ctx.assume("errors are compared as a class (ok / error), not by value")
     ctx.assume("dgram: successive attempts draw different random IDs (a case in which they collide is re-run)")
+    ctx.assume("multi_stream back-off (random, below 2^n s, at most 60 s) is shorter than one tick (100 s for multi_stream cases; 10 s and at most three failures for dgram_stream cases), so a Delay ends with the next tick")
     ctx.assume("single-response requests only; no caller drops its request future before it resolves")
